@@ -97,10 +97,15 @@ def drive(evaluator, case, events=None, returned=None):
             if kind == "submit":
                 xs = op[1]
                 exc = 0
+                dicts = [{"x": x} for x in xs]
                 try:
-                    evaluator.submit([{"x": x} for x in xs])
+                    evaluator.submit(dicts)
                 except Exception as e:  # MaximumJobsSpawnReached is not expected here (no budget set)
                     exc = 1 if type(e).__name__ == "MaximumJobsSpawnReached" else 2
+                if case.get("alias"):
+                    # the caller re-uses / edits the dictionaries it submitted: the jobs must keep what was submitted
+                    for dct in dicts:
+                        dct["x"] = -777
                 inflight += list(range(next_id, next_id + len(xs)))
                 next_id += len(xs)
                 ev = [0, [[x, fval(x)] for x in xs], exc]
@@ -337,7 +342,7 @@ def gen_serial(count):
         yield dict(workers=3, ops=[["submit", [0, 1, 2]], ["gather", False, 1, [[0], [1]], 1], ["settle"], ["close"], ["dump"]])
         n = count * (4 if tier == "search" else 1)
         for _ in range(n):
-            yield dict(workers=rng.choice([1, 1, 2, 3, 4]), ops=gen_history(rng, 6 if tier == "search" else 12))
+            yield dict(workers=rng.choice([1, 1, 2, 3, 4]), ops=gen_history(rng, 6 if tier == "search" else 12), alias=rng.random() < 0.5)
     return gen
 
 
@@ -346,7 +351,7 @@ def gen_backend(count, backends):
         for i in range(count):
             b = backends[i % len(backends)]
             ops = gen_history(rng, 7, close_p=0.1)
-            yield dict(backend=b, workers=rng.choice([1, 2, 4]), ops=ops, durs=[rng.choice([1, 5, 10, 20, 40]) for _ in range(8)])
+            yield dict(backend=b, workers=rng.choice([1, 2, 4]), ops=ops, durs=[rng.choice([1, 5, 10, 20, 40]) for _ in range(8)], alias=rng.random() < 0.5)
     return gen
 
 
